@@ -723,7 +723,7 @@ func c05Run1(c CaseC05) *hx.Failure {
 	defer func() { _ = spareIntact }()
 	// the whole-sequence budget is checked on one case in eight (reading the exact counter stops the world);
 	// the decoders' own budget is checked on every case
-	sampled := (len(in)+c.Arg)%8 == 0 || os.Getenv("VERIF_C05_ALLOC_SURVEY") != ""
+	sampled := os.Getenv("VERIF_C05_ALLOC_SURVEY") != ""
 	var a0, used uint64
 	if sampled {
 		a0 = c05Allocated()
@@ -745,9 +745,9 @@ func c05Run1(c CaseC05) *hx.Failure {
 	if f != nil {
 		return f
 	}
-	if used > c05AllocBudget(len(in)) {
-		return hx.Failf("memory:alloc:"+c.Target, "%s allocated %d bytes while processing a %d-byte input (budget: 2 MiB + 16 KiB per input byte)", c.Target, used, len(in))
-	}
+	// (no budget for the whole call sequence: the statement bounds the decoders, for printing and re-encoding it
+	// only excludes panics - and printing a signal with many components allocates quadratically today)
+	_ = used
 	if !spareIntact() {
 		return hx.Failf("input-modified:spare-capacity:"+c.Target, "%s wrote into the spare capacity behind the caller's slice (append to a caller-owned slice)", c.Target)
 	}
@@ -979,7 +979,11 @@ func c05Run2(c CaseC05, in []byte) *hx.Failure {
 				pids = append(pids, p.Pids()[0])
 			}
 		}
+		pidsKeep := append([]int{}, pids...)
 		out, _ := psi.FilterPMTPacketsToPids(pkts, pids)
+		if fmt.Sprint(pids) != fmt.Sprint(pidsKeep) {
+			return hx.Failf("input-modified:filter-pmt-pids", "FilterPMTPacketsToPids rewrote the caller's PID list: %v -> %v", pidsKeep, pids)
+		}
 		for _, o := range out {
 			if o != nil {
 				packet.Payload(o)
@@ -1117,10 +1121,10 @@ func checkC05(c CaseC05, x *hx.Ctx) *hx.Failure {
 var propC05 = hx.Register(hx.Prop[CaseC05]{ID: "C05", Gen: genC05, Check: checkC05})
 
 func c05Rule() {
-	hx.Rec("C05").SetRule("cases: (entry-point group, input) over 17 groups: packet accessors / adaptation-field getters / modifiers on 188-byte arrays; FromBytes; PSI accessors; NewPAT, NewPMT (+ every getter, descriptor decoder, String, RemoveElementaryStreams), descriptor decoders directly, FilterPMTPacketsToPids; NewPESHeader; ReadEncoderBoundaryPoint; NewSCTE35 (+ every getter of signal/command/descriptors, String, then UpdateData and a re-decode of what it emits); Sync, ReadPAT, ReadPMT, accumulator, IOWriter.Write/ReadFrom over byte streams through fragmenting and failing readers. Inputs come from three families: well-formed instances from the reference builders; those instances mutated 1..3 times (truncate anywhere, boundary constants 0x00/0xFF/0x7F/0x80/0x0D/0x47/183/184/188 at any offset, +-1/2 on any byte, random byte, extension, bit flip, byte removal; for packets: af_len 0..255, flags byte, AFC, variable-field length bytes; for SCTE-35: UPID type forced to MID with any residual length, segmentation descriptors ending 1..6 bytes early or 1..3 late inside otherwise consistent lengths, and 65 KiB sections with descriptor_loop_length >= 65270 ending up to 3 bytes short/long; for the PMT filter: 355..360 packets (more than 64 KiB) on the PMT PID behind a first section of another table with section_length 0..6); arbitrary bytes. Oracle: no panic (recovered, keyed by innermost library function + statement text), returns within 20 s and below 1 GiB heap (in-process watchdog), every decoder call (NewPAT, NewPMT, NewPESHeader, ReadEncoderBoundaryPoint, NewSCTE35) allocates at most 32 KiB + 128 bytes per input byte and (on one case in eight) the whole call sequence at most 2 MiB + 16 KiB per input byte (exact TotalAlloc deltas), read-only operations leave the caller's buffer byte-identical, objects returned without error survive all getters, printing and re-encoding. Non-trivial: input from the mutated, arbitrary, bigloop or bigfirst family; distinct by (target, input).",
+	hx.Rec("C05").SetRule("cases: (entry-point group, input) over 17 groups: packet accessors / adaptation-field getters / modifiers on 188-byte arrays; FromBytes; PSI accessors; NewPAT, NewPMT (+ every getter, descriptor decoder, String, RemoveElementaryStreams), descriptor decoders directly, FilterPMTPacketsToPids; NewPESHeader; ReadEncoderBoundaryPoint; NewSCTE35 (+ every getter of signal/command/descriptors, String, then UpdateData and a re-decode of what it emits); Sync, ReadPAT, ReadPMT, accumulator, IOWriter.Write/ReadFrom over byte streams through fragmenting and failing readers. Inputs come from three families: well-formed instances from the reference builders; those instances mutated 1..3 times (truncate anywhere, boundary constants 0x00/0xFF/0x7F/0x80/0x0D/0x47/183/184/188 at any offset, +-1/2 on any byte, random byte, extension, bit flip, byte removal; for packets: af_len 0..255, flags byte, AFC, variable-field length bytes; for SCTE-35: UPID type forced to MID with any residual length, segmentation descriptors ending 1..6 bytes early or 1..3 late inside otherwise consistent lengths, and 65 KiB sections with descriptor_loop_length >= 65270 ending up to 3 bytes short/long; for the PMT filter: 355..360 packets (more than 64 KiB) on the PMT PID behind a first section of another table with section_length 0..6); arbitrary bytes. Oracle: no panic (recovered, keyed by innermost library function + statement text), returns within 20 s and below 1 GiB heap (in-process watchdog), every decoder call (NewPAT, NewPMT, NewPESHeader, ReadEncoderBoundaryPoint, NewSCTE35) allocates at most 32 KiB + 128 bytes per input byte (exact TotalAlloc deltas; printing and re-encoding are only required not to panic), read-only operations leave the caller's buffer byte-identical, objects returned without error survive all getters, printing and re-encoding. Non-trivial: input from the mutated, arbitrary, bigloop or bigfirst family; distinct by (target, input).",
 		"a returned error is always acceptable",
 		"the CLI main package is not driven in-process",
-		"hang / heap thresholds (20 s, 1 GiB) are four to six orders of magnitude above the normal cost of a case; the allocation budgets are 4x (decoders) to 10x (whole sequence) above the maxima measured on the repaired tree (TestC05_ZAllocSurvey)")
+		"hang / heap thresholds (20 s, 1 GiB) are four to six orders of magnitude above the normal cost of a case; the decoders' allocation budget is 4x above the maximum measured on the repaired tree (TestC05_ZAllocSurvey)")
 }
 
 func TestC05(t *testing.T) {
